@@ -51,6 +51,10 @@ def build(case, tree=None, provider=None):
             obj = vDDDLists(v)
         elif kind == "vRecur":
             obj = vRecur(v)
+        elif kind == "vRecur-setitem":     # rule parts assigned one by one after construction (scalars stay scalars)
+            obj = vRecur()
+            for rk, rv in v.items():
+                obj[rk] = rv
         else:
             obj = vDDDTypes(v)
         c[d["name"]] = obj
@@ -139,12 +143,12 @@ def judge(case):
     fails = []
     try:
         a = build(case)
-        before = T.extract(a)
+        before = T.snapshot(a)      # does not call to_ical on the values
         s1 = a.to_ical()
-        after1 = T.extract(a)
+        after1 = T.snapshot(a)
         s2 = a.to_ical()
         u1 = a.to_ical(sorted=False)
-        after2 = T.extract(a)
+        after2 = T.snapshot(a)
         u2 = a.to_ical(sorted=False)
     except Exception as e:
         return [Failure("C10.serialise", "raises/" + exc_signature(e), repr(e)[:300])]
@@ -266,7 +270,7 @@ def _repeat_and_param_order(case, root, s1, u1):
 def _diff(a, b):
     if a[0] != b[0]:
         return f"name {a[0]} vs {b[0]}"
-    da, db = dict(a[1]), dict(b[1])
+    da, db = {p[0]: p[1:] for p in a[1]}, {p[0]: p[1:] for p in b[1]}
     for k in sorted(set(da) | set(db)):
         if da.get(k) != db.get(k):
             return f"{a[0]}.{k}: {da.get(k)!r} -> {db.get(k)!r}"[:400]
@@ -408,8 +412,9 @@ _direct = st.one_of(
     st.builds(lambda n, s: {"node": n, "name": "DUE", "cls": "vDate", "spec": s}, st.integers(0, 9), V.s_date),
     st.builds(lambda n, s: {"node": n, "name": "FREEBUSY", "cls": "vPeriod", "spec": s}, st.integers(0, 9), T.s_value("period")),
     st.builds(lambda n, s: {"node": n, "name": "RDATE", "cls": "vDDDLists", "spec": s}, st.integers(0, 9), T.s_value("dates")),
-    st.builds(lambda n, d: {"node": n, "name": "RRULE", "cls": "vRecur", "spec": {"k": "recur", "v": d}}, st.integers(0, 9),
-              st.permutations([("COUNT", 3), ("FREQ", "DAILY"), ("BYDAY", ["MO", "TU"]), ("INTERVAL", 2), ("WKST", "SU")]).map(dict)),
+    st.builds(lambda n, d, c: {"node": n, "name": "RRULE", "cls": c, "spec": {"k": "recur", "v": d}}, st.integers(0, 9),
+              st.permutations([("COUNT", 3), ("FREQ", "DAILY"), ("BYDAY", ["MO", "TU"]), ("INTERVAL", 2), ("WKST", "SU")]).map(dict),
+              st.sampled_from(["vRecur", "vRecur-setitem"])),
 )
 
 
